@@ -19,6 +19,9 @@ func c13EndedRun(e *Env) {
 	tr := []string{TrUDP, TrDTLS}[t.Choose(2)]
 	byReset := t.Chance(1, 2)
 	kind := t.Choose(3) // 0 get, 1 observe registration, 2 confirmable one-way write
+	// third way: the response starts to arrive in blocks and the peer goes away; the housekeeping drops the transfer
+	// when the block-wise transfer timeout has passed - later blocks would be refused
+	byTransferTimeout := t.Chance(1, 4)
 	ackTO := 2 * time.Second
 	maxRetx := uint32(1 + t.Choose(2))
 	cfg := SimUDPConfig(int32(t.Choose(60000)))
@@ -26,6 +29,10 @@ func c13EndedRun(e *Env) {
 	cfg.TransmissionAcknowledgeTimeout = ackTO
 	cfg.TransmissionMaxRetransmit = maxRetx
 	cfg.BlockwiseEnable = t.Chance(1, 2)
+	cfg.BlockwiseTransferTimeout = 5 * time.Second
+	if byTransferTimeout {
+		cfg.BlockwiseEnable, kind, byReset = true, 0, false
+	}
 	cfg.LimitClientParallelRequests = 1
 	cfg.LimitClientEndpointParallelRequests = 1
 	w := NewCWorld(e, CWorldCfg{Transport: tr, UDP: cfg})
@@ -53,6 +60,9 @@ func c13EndedRun(e *Env) {
 		}
 	}
 	how := map[bool]string{true: "reset", false: "given-up"}[byReset]
+	if byTransferTimeout {
+		how = "transfer-expired"
+	}
 	e.Logf("cfg transport=%s kind=%d ends-by=%s maxRetransmit=%d bw=%v", tr, kind, how, maxRetx, cfg.BlockwiseEnable)
 	// no deadline: the application relies on the library to tell it when the exchange is over
 	a := e.NewCall("first", 950, nil, 0)
@@ -77,7 +87,27 @@ func c13EndedRun(e *Env) {
 		return
 	}
 	t0 := e.Now()
-	if byReset {
+	if byTransferTimeout {
+		it := w.Queue(&WMsg{Type: TACK, Code: 0x45, MID: first.MID, Token: first.Token, Payload: []byte("0123456789abcdef"), Opts: []WOpt{UintOpt(OptBlock2, BlockOpt(0, true, 0))}}, "block-0")
+		it.NoDup, it.NoDrop = true, true
+		first = &WMsg{MID: 0xffff} // (the request for block 1 is not the second request)
+		w.OnRecv = func(m *WMsg) {
+			if m.Type == TCON && m.Code == 1 && len(m.Opts) > 0 && string(m.Opts[0].Val) == "b" && second == nil {
+				second = m
+				w.Queue(&WMsg{Type: TACK, Code: 0x45, MID: m.MID, Token: m.Token, Payload: []byte("second")}, "answer-second")
+			}
+		}
+		w.Emit(it, false)
+		e.Wait()
+		w.Pump()
+		for i := 0; i < 8; i++ {
+			e.Sleep(time.Second)
+			w.Tick(time.Now())
+			e.Wait()
+			w.Pump()
+		}
+		e.Probe("ended.byTransferTimeout")
+	} else if byReset {
 		it := w.Queue(&WMsg{Type: TRST, Code: 0, MID: first.MID}, "reset")
 		it.NoDup, it.NoDrop = true, true
 		w.Emit(it, false)
@@ -111,6 +141,24 @@ func c13EndedRun(e *Env) {
 		if sizes[k] != 0 {
 			held += fmt.Sprintf(" %s=%d", k, sizes[k])
 		}
+	}
+	if byTransferTimeout {
+		// one verdict for this way of ending (a known finding is recorded by rule and signature)
+		b := e.NewCall("second", 951, nil, 50*time.Second)
+		e.Start(b, func(ctx context.Context) (*pool.Message, error) { return w.API.Get(ctx, "/b") }, w.API.ReleaseMessage)
+		e.Wait()
+		w.Pump()
+		if held != "" || second == nil {
+			e.Violate("C13.R1", "kept-after-the-exchange-ended:transfer-expired", "the transfer of the response was dropped by the housekeeping when its timeout (5s) had passed; at %v the connection still holds:%s; a second request has been sent: %v", e.Now(), held, second != nil)
+		}
+		e.CancelCall(a)
+		e.Wait()
+		for _, it := range append([]*OutItem(nil), w.Outbox...) {
+			w.Emit(it, false)
+			e.Wait()
+			w.Pump()
+		}
+		return
 	}
 	rule := map[string]string{"tokenHandlers": "C13.R1", "midHandlers": "C13.R2", "bwSending": "C13.R5", "limiterEndpoints": "C13.R6", "limiterWaiters": "C13.R6", "observations": "C13.R7"}
 	for _, k := range []string{"tokenHandlers", "midHandlers", "bwSending", "limiterEndpoints", "limiterWaiters", "observations"} {
